@@ -95,7 +95,7 @@ pub fn tok_of(prefix: &str, s: &str) -> u64 {
 pub const CIDS: [&str; 5] = ["C000", "c000", "c001", "c002", "c00\u{e9}"];
 pub const BIDS: [&str; 4] = ["B000", "b000", "b001", "b002"];
 pub const HOSTS: [&str; 4] = ["h000.example", "h001.example", "H000.Example", "WWW.h000.EXAMPLE"];
-pub const PATHS: [&str; 5] = ["/p000", "/p001", "/P000", "/p000/", ""];
+pub const PATHS: [&str; 6] = ["/p000", "/p001", "/P000", "/p000/", "", "/p(("];
 pub const METHODS: [&str; 6] = ["GET", "get", "Post", "POST", "M004", "pUrGe"];
 pub const STICKY_NAMES: [&str; 3] = ["SOZUBALANCEID", "sozubalanceid", "s001"];
 pub const STICKY_IDS: [&str; 3] = ["K000", "k000", "k001"];
@@ -778,6 +778,16 @@ pub fn https_listener(l: &HL) -> HttpsListenerConfig {
         c.answers.insert("404".into(), if k == 1 { "nf".into() } else { "NF".into() });
         c.send_x_real_ip = Some(k == 1);
         c.elide_x_real_ip = Some(k == 2);
+    } else if l.rest == 4 {
+        // what `ListenerBuilder::to_tls` fills in: the TLS parameter lists a worker needs to build its context
+        if let Ok(d) = sozu_command_lib::config::ListenerBuilder::new_https(sa(l.addr)).to_tls(None) {
+            c.versions = d.versions;
+            c.cipher_list = d.cipher_list;
+            c.cipher_suites = d.cipher_suites;
+            c.signature_algorithms = d.signature_algorithms;
+            c.groups_list = d.groups_list;
+            c.send_tls13_tickets = d.send_tls13_tickets;
+        }
     } else if l.rest > 2 {
         c.cipher_suites = vec![format!("r{}", l.rest)];
     }
@@ -802,7 +812,7 @@ pub fn hl_of_https(c: &HttpsListenerConfig) -> HL {
         sid: c.sozu_id_header.clone(),
         rest: 9999,
     };
-    for r in 0..4 {
+    for r in 0..5 {
         l.rest = r;
         if &https_listener(&l) == c {
             return l;
